@@ -38,11 +38,16 @@ pub struct PolicyCase {
     /// above (not exceeded)
     pub frag_mode: u8,
     pub dead_mode: u8,
+    /// every configuration of this case is built with `Config::default()` and the public setters
+    /// instead of being deserialized (the merge policy alone always comes through serde: its type
+    /// is not exported)
+    #[serde(default)]
+    pub via_setters: bool,
 }
 
 fn strategy(_tier: Tier) -> BoxedStrategy<PolicyCase> {
     (
-        prop_oneof![4 => Just(0u8), 10 => Just(1u8), 4 => Just(2u8), 4 => Just(3u8), 1 => Just(4u8)],
+        prop_oneof![4 => Just(0u8), 10 => Just(1u8), 4 => Just(2u8), 4 => Just(3u8), 2 => Just(4u8)],
         20u16..200,
         prop_oneof![Just(0u8), 1u8..100, Just(100u8)],
         prop_oneof![Just(2u64 << 30), 200u64..2000],
@@ -51,9 +56,9 @@ fn strategy(_tier: Tier) -> BoxedStrategy<PolicyCase> {
         0u8..8,
         1u16..200,
         0u8..4,
-        0u8..4,
+        (0u8..4, any::<bool>()),
     )
-        .prop_map(|(mode, interval_ms, jitter_pct, max_file_size, nkeys, overwrites, deletes, val_len, frag_mode, dead_mode)| PolicyCase {
+        .prop_map(|(mode, interval_ms, jitter_pct, max_file_size, nkeys, overwrites, deletes, val_len, frag_mode, (dead_mode, via_setters))| PolicyCase {
             mode,
             interval_ms,
             jitter_pct,
@@ -64,6 +69,7 @@ fn strategy(_tier: Tier) -> BoxedStrategy<PolicyCase> {
             val_len,
             frag_mode,
             dead_mode,
+            via_setters,
         })
         .boxed()
 }
@@ -129,11 +135,14 @@ fn live_crossing_case(c: &PolicyCase, env: &Env, dir: &std::path::Path, base_cfg
     std::fs::create_dir_all(dir).unwrap();
     let interval_ms = 1500 + (c.interval_ms as u64 % 180) * 5; // 1.5 .. 2.4 s
     let jitter = (c.jitter_pct % 20) as f64 / 100.0;
+    // the dead bytes come from overwrites, or from deletes of keys with larger values
+    let by_deletes = c.deletes % 2 == 1;
+    run.labels.push(if by_deletes { "live-crossing-by-deletes".into() } else { "live-crossing-by-overwrites".into() });
     let merge = serde_json::json!({
         "policy": "always",
         "check_interval_ms": interval_ms,
         "check_jitter": jitter,
-        "triggers": { "fragmentation": 1.0, "dead_bytes": 40 },
+        "triggers": { "fragmentation": 1.0, "dead_bytes": if by_deletes { 150 } else { 40 } },
     });
     let t0 = Instant::now();
     let kv = match catch(|| config_json(base_cfg, dir, Some(merge), None).open()) {
@@ -144,10 +153,24 @@ fn live_crossing_case(c: &PolicyCase, env: &Env, dir: &std::path::Path, base_cfg
         }
     };
     let h = kv.get_handle();
-    // cross the trigger well inside the first sleep: overwrite one key a few times
+    // cross the trigger well inside the first sleep
     std::thread::sleep(Duration::from_millis(100));
-    for i in 0..6 {
-        let _ = h.set(Bytes::from_static(b"hot"), Bytes::from(vec![b'x'; 40 + i]));
+    if by_deletes {
+        // five values of 200 bytes, four of them deleted.  The trigger is per file and the case's
+        // max_file_size may put every value into a file of its own, so the trigger (150) is below
+        // the size of ONE deleted entry (227 bytes) and above everything four tombstones (19 bytes
+        // each) can add up to
+        for i in 0..5u8 {
+            let _ = h.set(Bytes::from(vec![b'k', i]), Bytes::from(vec![b'v'; 200]));
+        }
+        for i in 0..4u8 {
+            let _ = h.del(Bytes::from(vec![b'k', i]));
+        }
+    } else {
+        // overwrite one key a few times
+        for i in 0..6 {
+            let _ = h.set(Bytes::from_static(b"hot"), Bytes::from(vec![b'x'; 40 + i]));
+        }
     }
     let crossed_at = t0.elapsed();
     let interval = Duration::from_millis(interval_ms);
@@ -482,6 +505,38 @@ fn exec(c: &PolicyCase, env: &Env) -> Outcome {
     if c.nkeys == 0 {
         return out;
     }
+    // the two documented ways to build a configuration must describe the same store
+    {
+        let cfg = StoreCfg {
+            max_file_size: c.max_file_size,
+            readers_cache: 1 + c.nkeys as usize,
+            concurrency: 1 + (c.overwrites % 4) as usize,
+            frag: (c.deletes % 11) as f64 / 10.0,
+            dead_bytes: c.val_len as u64 * 3,
+            small_file: c.val_len as u64 * 7 + 1,
+            sync_always: c.frag_mode % 2 == 1,
+            sync_interval_ms: 0,
+        };
+        let merge = serde_json::json!({
+            "policy": if c.mode == 0 { "never" } else { "always" },
+            "check_interval_ms": c.interval_ms,
+            "check_jitter": (c.jitter_pct.min(100)) as f64 / 100.0,
+            "triggers": { "fragmentation": (c.overwrites % 11) as f64 / 10.0, "dead_bytes": c.val_len as u64 * 5 + 2 },
+        });
+        let sync = if c.dead_mode % 2 == 1 { Some(serde_json::json!({ "interval_ms": c.interval_ms as u64 + 9 })) } else { None };
+        let (a, b) = crate::store::config_both_debug(&cfg, &env.scratch.join("cfg"), Some(merge), sync);
+        if a != b {
+            out.set_fail(
+                "config-setters-and-serde-disagree".to_string(),
+                format!("the same settings give different configurations: deserialized = {} ; built with the setters = {}", a, b),
+            );
+            return out;
+        }
+    }
+    crate::store::CONFIG_VIA_SETTERS.store(c.via_setters, std::sync::atomic::Ordering::SeqCst);
+    if c.via_setters {
+        out.label("configured-through-setters");
+    }
     let mut run = run_once(c, env);
     if let Some((_, _, true)) = &run.fail {
         // a positive deadline was missed: re-try once before reporting
@@ -493,6 +548,7 @@ fn exec(c: &PolicyCase, env: &Env) -> Outcome {
             run = again;
         }
     }
+    crate::store::CONFIG_VIA_SETTERS.store(false, std::sync::atomic::Ordering::SeqCst);
     out.labels.extend(run.labels);
     out.nontrivial = run.nontrivial;
     if let Some((sig, msg, _)) = run.fail {
@@ -505,7 +561,7 @@ pub fn prop() -> Prop<PolicyCase> {
     Prop {
         id: "C18",
         level: "exploration",
-        rule: "Cases: a write pattern (2-23 keys set, 0-23 overwritten, 0-7 deleted, small or 2 GiB max_file_size) written with all background activity off; an independent decoder measures the worst per-file dead bytes and fragmentation; the store is then reopened with policy never or always, check interval 20-200 ms, jitter 0-1, and triggers placed relative to the measured values: far below (exceeded), exactly at the measured value (not exceeded - the trigger rule is a strict 'exceeds'), just below (exceeded), far above. Oracles: never -> no merge evidence (no new hint file, no data file removed) during 6 intervals; always + exceeded -> merge evidence within interval*(1+jitter)+2 s with no client action, then a quiet period; always + not exceeded -> none during 6 intervals. A fifth (rare, 2-3 s per case) mode opens an empty store with a check interval of 1.5-2.4 s, crosses the dead-bytes trigger by live writes during the first sleep and requires the merge with the first tick after the crossing (interval*(1+jitter)+0.8 s after the open). A fourth mode fails the first background merge pass once (transient ENOSPC injected by the shim when it creates its hint file) and requires a completed merge within 3 intervals + 2 s, since the triggers stay exceeded. Interval sync (10-100 ms; in most cases with 1-3 threads writing continuously so that the writer mutex is busy when a tick comes): under the LD_PRELOAD recorder the active file must be fsynced at least 3 times in a window of 10 intervals (at least 500 ms). Non-trivial: a trigger within one unit of the measured value, a policy-never case, an observed merge followed by a quiet period, or a sync window; distinct = distinct hash of the case.",
+        rule: "Cases: a write pattern (2-23 keys set, 0-23 overwritten, 0-7 deleted, small or 2 GiB max_file_size) written with all background activity off; an independent decoder measures the worst per-file dead bytes and fragmentation; the store is then reopened with policy never or always, check interval 20-200 ms, jitter 0-1, and triggers placed relative to the measured values: far below (exceeded), exactly at the measured value (not exceeded - the trigger rule is a strict 'exceeds'), just below (exceeded), far above. Oracles: never -> no merge evidence (no new hint file, no data file removed) during 6 intervals; always + exceeded -> merge evidence within interval*(1+jitter)+2 s with no client action, then a quiet period; always + not exceeded -> none during 6 intervals. A fifth (rare, 2-3 s per case) mode opens an empty store with a check interval of 1.5-2.4 s, crosses the dead-bytes trigger by live writes during the first sleep (overwrites of one key, or deletes of four keys with 200-byte values against a trigger of 150 bytes - less than one deleted entry, more than four tombstones) and requires the merge with the first tick after the crossing (interval*(1+jitter)+0.8 s after the open). A fourth mode fails the first background merge pass once (transient ENOSPC injected by the shim when it creates its hint file) and requires a completed merge within 3 intervals + 2 s, since the triggers stay exceeded. Interval sync (10-100 ms; in most cases with 1-3 threads writing continuously so that the writer mutex is busy when a tick comes): under the LD_PRELOAD recorder the active file must be fsynced at least 3 times in a window of 10 intervals (at least 500 ms). In half of the cases every configuration is built with Config::default() and the public setters instead of being deserialized (only the merge policy, whose type is not exported, always comes through serde), and in every case both builds of one generated settings record must render identically with Debug. Non-trivial: a trigger within one unit of the measured value, a policy-never case, an observed merge followed by a quiet period, or a sync window; distinct = distinct hash of the case.",
         assumptions: &[
             "positive deadlines carry 2 s of slack and are re-tried once before being reported; negative windows are 6 check intervals",
             "the merge window policy is not generated (the property does not mention it)",
